@@ -42,25 +42,36 @@ HARNESSES = [
     HN("c04_cmp_float_float", 20, "floats compare by value", "finite doubles"),
 ]
 ENCODED = ["HeapCellValue::order_category", "TermOrderCategory (derived Ord)", "<Atom as Ord>::cmp",
-           "<Number as Ord>::cmp (fixnum, float arms)"]
-ASSUME = ["inline atoms only (ASCII, 1 symbolic byte per atom)", "4-cell heap"]
+           "<Number as Ord>::cmp (fixnum, float arms)",
+           "ParallelHeapIter::next compound arms (MIR: push order, sides, (arity, name) comparisons, "
+           "Str x Str argument loop)"]
+ASSUME = ["inline atoms only (ASCII, 1 symbolic byte per atom)", "4-cell heap",
+          "M: no Str cell carries './2' (lists are Lis/PStrLoc cells: parser Term::Cons, functor/3), so the "
+          "pushes of the four Str x list arms are unreachable (z3 decides the infeasibility)",
+          "M: parallel_cmp returning None means its operands are equal; heap_bound_deref/store, "
+          "last_str_char_and_tail, compare_pstr_segments are uninterpreted"]
 BOUNDS = "one symbolic cell per harness on a 4-cell heap; atoms of length 1..6"
-OUTSIDE = ("compare_pstr_slices (758 s with two symbolic bytes), ParallelHeapIter (arity-name-args "
-           "order, list/string cross-representation, IndexSet tabu list): strings vs lists and "
-           "transitivity over compound terms are not covered")
+OUTSIDE = ("compare_pstr_slices byte loop (758 s with two symbolic bytes; its tail index is C20's M part), "
+           "the IndexSet tabu list (cyclic terms), the variable / number / atom leaf arms of the iterator "
+           "beyond the category and leaf harnesses, compare_term_test's folding of the pair stream, and "
+           "transitivity over whole compound terms")
 
 
-def mpost(results):
+def mpost(results, tier="quick"):
     from vlib import static_atoms
+    from vlib.mirsmt import c13 as m13
+    from vlib.common import EXIT_INCONCLUSIVE, EXIT_OK, EXIT_VIOLATION, log
     ok = static_atoms.atom_order_wiring()
-    from vlib.common import EXIT_INCONCLUSIVE, log
     log("  Atom::cmp = str::cmp(as_str(a), as_str(b)) (MIR): %s" % ok)
-    r = {"evaluations": 1, "distinct_nontrivial": 1 if ok else 0,
-         "samples": [{"query": "<Atom as Ord>::cmp compares the as_str texts, self first", "answer": ok}]}
-    if not ok:
+    r = m13.run(thorough=(tier == "thorough"))
+    r.setdefault("samples", []).append(
+        {"query": "<Atom as Ord>::cmp compares the as_str texts, self first", "answer": ok})
+    r["evaluations"] = r.get("evaluations", 0) + 1
+    r["distinct_nontrivial"] = r.get("distinct_nontrivial", 0) + (1 if ok else 0)
+    if not ok and r.get("exit", EXIT_OK) == EXIT_OK:
         r["exit"] = EXIT_INCONCLUSIVE
     return r
 
 
 def run(tier):
-    return kprop.run("C13", HARNESSES, tier, ASSUME, ENCODED, BOUNDS, OUTSIDE, post=mpost)
+    return kprop.run("C13", HARNESSES, tier, ASSUME, ENCODED, BOUNDS, OUTSIDE, post=lambda res: mpost(res, tier))
